@@ -477,6 +477,53 @@ func c02(c *Ctx) {
 			r.Break("C02.N7: only %d error definitions / %d positioning calls found in the snapshot functions", nErr, nPos)
 		}
 	}
+	// ---------- N7b what goes to the snapshot sink is written once: a Write that failed may have put out part of its buffer;
+	// writing the same buffer again leaves a torn record in front of the full one, and Persist reports success
+	{
+		isSinkWrite := func(info *types.Info, call *ast.CallExpr) bool {
+			se, ok := ast.Unparen(call.Fun).(*ast.SelectorExpr)
+			if !ok || se.Sel.Name != "Write" || len(call.Args) != 1 {
+				return false
+			}
+			// a method Write([]byte) (int, error): an io.Writer, the snapshot sink, a bufio.Writer
+			sig, ok := info.TypeOf(call.Fun).(*types.Signature)
+			return ok && sig.Params().Len() == 1 && sig.Results().Len() == 2
+		}
+		// … directly, or through a function of the file that writes (a record writer called from a retry loop)
+		writers := map[*types.Func]bool{}
+		for changed := true; changed; {
+			changed = false
+			for _, fi := range c.P.FuncsIn("main") {
+				if fi.Body() == nil || fi.Obj == nil || writers[fi.Obj] || !strings.HasPrefix(c.P.Pos(fi.Node().Pos()), "compaction.go") {
+					continue
+				}
+				for _, call := range astx.Calls(fi.Body(), true) {
+					if isSinkWrite(fi.Info(), call) || writers[astx.Callee(fi.Info(), call)] {
+						writers[fi.Obj] = true
+						changed = true
+						break
+					}
+				}
+			}
+		}
+		isWrite := func(info *types.Info, call *ast.CallExpr) bool {
+			return isSinkWrite(info, call) || writers[astx.Callee(info, call)]
+		}
+		nW := 0
+		for _, fi := range c.P.FuncsIn("main") {
+			if fi.Body() == nil {
+				continue
+			}
+			pos := c.P.Pos(fi.Node().Pos())
+			if !strings.HasPrefix(pos, "compaction.go") {
+				continue
+			}
+			nW += c.noRetryAfterError("C02.N7", fi, isWrite, "the snapshot that raft finalises does not decode: the node that restores from it has already wiped its state")
+		}
+		if nW < 1 {
+			r.Break("C02.N7: no Write to the snapshot sink found in compaction.go")
+		}
+	}
 	c.c02BaseState(snap, lss)
 	c.c02SinkErrors()
 	c.c02NoLiveGlobals(arm)
@@ -1318,58 +1365,12 @@ func (c *Ctx) c02SinkErrors() {
 				r.Fail("C02.N5", fi.Name(), "error of "+astx.Str(call.Fun)+" is kept", pos, "the error of a write to the snapshot sink is discarded: a failed snapshot write is reported as success and raft keeps a truncated snapshot")
 				continue
 			}
-			// on the err != nil edge every path returns that error (no normal continuation, no return of a different/nil error)
-			ok = false
+			// on the paths on which the error may be set the function ends with that error (returned — also after it was copied
+			// into another error variable or wrapped — or fatal); no normal continuation, no return of a different/nil error
 			bad := ""
-			for _, vv := range g.V {
-				for _, e := range vv.Succ {
-					if e.Cond == nil {
-						continue
-					}
-					for _, f := range cfgx.ExpandCond(e.Cond, e.Val) {
-						x, isNil, isCmp := nilCompare(info, f)
-						if !isCmp || isNil {
-							continue
-						}
-						id, isID := ast.Unparen(x).(*ast.Ident)
-						if !isID || astx.Obj(info, id) != errObj {
-							continue
-						}
-						// this test must be the one following the call
-						if !g.DominatedBy(e.From, func(x *cfgx.Vertex) bool { return x.ID == v }) {
-							continue
-						}
-						ok = true
-						reach := g.Reach(e.To, nil, nil)
-						for _, rv := range g.Returns() {
-							if !reach[rv.ID] {
-								continue
-							}
-							rs := rv.Node.(*ast.ReturnStmt)
-							returnsErr := false
-							if len(rs.Results) == 0 {
-								returnsErr = named[errObj]
-							} else {
-								last := rs.Results[len(rs.Results)-1]
-								returnsErr = astx.Mentions(info, last, errObj) && !isNilIdent(info, last)
-							}
-							// only returns on paths that did not re-assign errObj matter; keep it simple: the first return reached
-							if !returnsErr && !g.Between(e.To, rv.ID, func(x *cfgx.Vertex) bool {
-								for _, l := range astx.Assigned(info, x.Node) {
-									if lid, ok := ast.Unparen(l).(*ast.Ident); ok && astx.Obj(info, lid) == errObj {
-										return true
-									}
-								}
-								return false
-							}) {
-								bad = "a return reachable from the error edge does not return that error (" + astx.Str(rs) + ")"
-							}
-						}
-						if reach[g.Exit] && len(g.Returns()) == 0 {
-							bad = "the error edge falls off the end of the function"
-						}
-					}
-				}
+			ok, _ = c.errDecisive(info, g, v, errObj)
+			if !ok {
+				bad = "a path on which the error may be set reaches the end of the function, or overwrites the error, without returning it"
 			}
 			r.Check(ok && bad == "", "C02.N5", fi.Name(), "error of "+astx.Str(call.Fun)+" is propagated", pos, "err != nil edge returns that error",
 				"a failed write to the snapshot sink is not propagated ("+bad+"): Persist reports success, raft closes instead of cancelling the sink and a truncated snapshot becomes the latest one")
